@@ -506,6 +506,15 @@ def run(ctx):
     v = wire.recv("fl", "NaN")
     if not isinstance(v, float) or v == v:
         ctx.fail("NaN decoded wrongly", {"text": "NaN"}, repr(v), "nan")
+    # ---- strings: the value is the text, blanks at either end included (xsd:string does not collapse white space)
+    for sv in ["s", " lead", "trail ", " both ", "a  b", "0", " 7 ", "true "]:
+        ctx.case(("string", sv), sv != "s")
+        t = wire.send("st", sv)
+        if t != sv:
+            ctx.fail("string leaf text is not the string", {"string": sv}, t, sv)
+        v = wire.recv("st", sv)
+        if not isinstance(v, str) or str(v) != sv:
+            ctx.fail("string does not read back equal", {"text": sv}, repr(v), repr(sv))
     # ---- date / time / dateTime parsing: model correspondence + XSD oracle
     cases = gen_parse_cases(ctx)
     opname = {"date": "xsd.parseDate", "time": "xsd.parseTime", "dateTime": "xsd.parseDateTime"}
@@ -599,7 +608,8 @@ def attribute_values(ctx):
     req, rep = wsdlkit.client(w, nosend=True), wsdlkit.client(w)
     cases = [("ab", "false", False), ("ab", "0", False), ("ab", "true", True), ("ab", "1", True), ("ai", "0", 0),
              ("ai", "-000", 0), ("ai", "42", 42), ("ad", "0.00", decimal.Decimal("0.00")), ("ad", "1.5", decimal.Decimal("1.5")),
-             ("af", "0.0", 0.0), ("af", "-0", -0.0), ("af", "2.5", 2.5), ("as", "", ""), ("as", "0", "0")]
+             ("af", "0.0", 0.0), ("af", "-0", -0.0), ("af", "2.5", 2.5), ("as", "", ""), ("as", "0", "0"),
+             ("as", " pad ", " pad ")]
     for name, lex, value in cases:
         meta = {"stream": "attribute-values", "attribute": name, "text": lex}
         ctx.case(common.canon(meta), True)
